@@ -11,6 +11,63 @@ use crate::traits::{Cloneable, None};
 use crate::AnyVec;
 use crate::any_value::{AnyValueRaw, AnyValueWrapper};
 
+// ---- in-place loop invariants (hooks in src/any_vec_raw.rs and src/clone_type.rs) -------------------------
+/// erased destructor loop: after `i` iterations the cursor is `entry + i x size_of::<T>()`
+pub fn dc_inv<T>(ptr: *mut u8, entry: *mut u8, i: usize, len: usize) -> bool {
+    i <= len && ptr as usize == entry as usize + i * size_of::<T>()
+}
+/// clone_fn loop (no loop-carried state besides the index)
+pub fn cf_inv(i: usize, len: usize) -> bool { i <= len }
+
+/// ghost read by the element types of the unbounded loop harnesses (read-only inside the loops)
+pub static mut U_START: usize = 0;
+pub static mut U_LEN: usize = 0;
+#[repr(C)]
+pub struct U8(pub [u8; 8]);
+impl Drop for U8 {
+    fn drop(&mut self) {
+        let a = self as *mut Self as usize;
+        let (s, l) = unsafe { (U_START, U_LEN) };
+        kani::assert(a >= s && a < s + l * 8 && (a - s) % 8 == 0, "erased destructor: every call destroys a slot start inside ptr .. ptr + len x size_of::<T>()");
+    }
+}
+impl Clone for U8 {
+    fn clone(&self) -> Self {
+        let a = self as *const Self as usize;
+        let (s, l) = unsafe { (U_START, U_LEN) };
+        kani::assert(a >= s && a < s + l * 8 && (a - s) % 8 == 0, "clone_fn: every call clones a slot start inside src .. src + len x size_of::<T>()");
+        U8([0; 8])
+    }
+}
+extern crate alloc;
+const UCAP: usize = 1 << 20;
+/// unbounded (len <= 2^20): the loop is closed by its in-place invariant; stride, range and alignment of every
+/// destructor call. (The *count* of calls is the for-loop's own `0..len`; the bounded harnesses check it for len <= 8.)
+fn drop_closure_unbounded_h() {
+    let len: usize = kani::any();
+    kani::assume(len <= UCAP);
+    let base = unsafe { alloc::alloc::alloc(Layout::from_size_align(UCAP * 8, 8).unwrap()) };
+    kani::assume(!base.is_null());
+    unsafe { U_START = base as usize; U_LEN = len; }
+    let raw = AnyVecRaw::<Empty>::new::<U8>(Empty, Empty.build(Layout::new::<U8>()));
+    let f = raw.drop_fn.unwrap();
+    unsafe { f(base, len) };
+    kani::cover!(len == UCAP, "COV largest length");
+    kani::cover!(true, "REACHED");
+}
+fn clone_fn_unbounded_h() {
+    let len: usize = kani::any();
+    kani::assume(len <= UCAP);
+    let src = unsafe { alloc::alloc::alloc(Layout::from_size_align(UCAP * 8, 8).unwrap()) };
+    let dst = unsafe { alloc::alloc::alloc(Layout::from_size_align(UCAP * 8, 8).unwrap()) };
+    kani::assume(!src.is_null() && !dst.is_null());
+    unsafe { U_START = src as usize; U_LEN = len; }
+    let f = <U8 as CloneFnTrait<dyn Cloneable>>::CLONE_FN;
+    unsafe { f(src, dst, len) };
+    kani::cover!(len == UCAP, "COV largest length");
+    kani::cover!(true, "REACHED");
+}
+
 pub const LB: usize = 8;
 pub struct Log { pub n: usize, pub at: [usize; LB + 1] }
 pub static mut DLOG: Log = Log { n: 0, at: [0; LB + 1] };
